@@ -368,16 +368,10 @@ func runFlagFuzz(t *simrt.Tape, keep bool) simrt.Outcome {
 	for _, n := range names {
 		var m0, m1 runtime.MemStats
 		runtime.ReadMemStats(&m0)
-		// under a wall-clock guard: a parser that loops without consuming its input never returns
-		done := make(chan struct{})
-		go func(n string) {
-			defer close(done)
-			r.guard(n+" parser on "+strconv.Quote(s), parsers[n])
-		}(n)
-		select {
-		case <-done:
-		case <-time.After(30 * time.Second):
-			r.fail("C16.hang", map[string]string{"parser": n, "nominimise": "1"}, "%s parser did not return within 30s on the %d byte value %q", n, len(s), s)
+		// under a guard: a parser that loops without consuming its input never returns
+		n := n
+		if simrt.Bounded(20*time.Second, func() { r.guard(n+" parser on "+strconv.Quote(s), parsers[n]) }) {
+			r.fail("C16.hang", map[string]string{"parser": n, "nominimise": "1"}, "%s parser did not return after 20s of processor time on the %d byte value %q", n, len(s), s)
 			return r.outcome(map[string]any{"value": s}, true)
 		}
 		runtime.ReadMemStats(&m1)
